@@ -1,6 +1,6 @@
 /* harnesses for buffer.c -- included at the end of the injected TU */
 #include "vg.h"
-size_t vg_o, vg_k, vg_len0, vg_cur0, vg_end0, vg_alloc0;
+size_t vg_o, vg_k, vg_len0, vg_cur0, vg_end0, vg_alloc0, vg_slen;
 uint8_t vg_byte0;
 
 /* an arbitrary well-formed buffer, built explicitly (cursor anywhere, end anywhere behind it) */
@@ -108,4 +108,26 @@ void h_buf_rd_u32(void) {
     int32_t rc = jls_buf_rd_u32(b, v);
     VG_REACH(rd_u32_returns);
     if (rc == 0) { VG_REACH(rd_u32_ok); } else { VG_REACH(rd_u32_empty); }
+}
+
+void h_buf_wr_bin(void) {
+    struct jls_buf_s * b = vg_mk_buf(1);
+    uint32_t n;
+    uint8_t * d = malloc(n);
+    __CPROVER_assume(n == 0 || d != NULL);
+    int32_t rc = jls_buf_wr_bin(b, d, n);
+    VG_REACH(wr_bin_returns);
+    if (rc == 0 && n > 2000000) { VG_REACH(wr_bin_grew); }
+}
+
+void h_buf_wr_str(void) {
+    struct jls_buf_s * b = vg_mk_buf(1);
+    size_t sz; __CPROVER_assume(sz >= 1 && sz <= (1u << 20));
+    char * s = malloc(sz);
+    _Bool absent;
+    if (absent) { s = NULL; } else { __CPROVER_assume(s != NULL); }
+    int32_t rc = jls_buf_wr_str(b, s);
+    VG_REACH(wr_str_returns);
+    if (rc == 0 && vg_slen > 100) { VG_REACH(wr_str_long); }
+    if (rc == 0 && s == NULL) { VG_REACH(wr_str_absent); }
 }
